@@ -29,7 +29,7 @@ class GhostMap:
 
 @register
 class Wrapper(Contract):
-    path, qualname, props = CVP, 'call_variant_peptides_wrapper', ('C07',)
+    path, qualname, props = CVP, 'call_variant_peptides_wrapper', ('C07', 'C05')
     max_paths = 6000
     assumptions = (
         'havoc: call_peptide_main / call_peptide_fusion / call_peptide_circ_rna return a fresh (peptide_map, graph, graph) or raise any exception',
